@@ -34,6 +34,8 @@
 (*                       be created the cache file is written in place,    *)
 (*                       removed again by a deferred clean-up unless the   *)
 (*                       run completed - which a kill never executes       *)
+(*   "ToolFailureIgnored" (a seeded change) a disassembler that dies from  *)
+(*                       a signal is taken for one that finished           *)
 (*   "ScanLeftovers"     (a seeded change) a run that finds no cache file  *)
 (*                       under its own name also accepts any other file of *)
 (*                       the cache directory that starts with the right    *)
@@ -107,7 +109,9 @@ SpillFails ==
 Dump ==
   /\ pc = "dump"
   /\ \/ /\ ~toolOK /\ pc' = "failed" /\ UNCHANGED <<buf, sent>>
-     \/ /\ toolOK /\ sent = failAt /\ pc' = "failed" /\ UNCHANGED <<buf, sent>>
+     \/ /\ toolOK /\ sent = failAt /\ "ToolFailureIgnored" \notin Dev /\ pc' = "failed" /\ UNCHANGED <<buf, sent>>
+     \/ /\ toolOK /\ sent = failAt /\ "ToolFailureIgnored" \in Dev
+        /\ pc' = (IF HasData THEN "flush" ELSE "close") /\ UNCHANGED <<buf, sent>>
      \/ /\ toolOK /\ sent # failAt /\ sent < NChunks
         /\ sent' = sent + 1 /\ buf' = [buf EXCEPT !.chunks = @ + 1] /\ UNCHANGED pc
      \/ /\ toolOK /\ sent = NChunks /\ failAt > NChunks
